@@ -1,6 +1,6 @@
 /* kdiff - framework + main of the C07 kernel differential harness (see kdiff.h).
  *
- * usage: kdiff --seed S --n N [--shard a/b] [--after PTR] [--only PTR] [--case I] [--variant FN] [--exact] [--list]
+ * usage: kdiff --seed S --n N [--shard a/b] [--after PTR] [--only PTR] [--case I] [--variant FN] [--isa avx512] [--exact] [--list]
  * output (stdout, one record per line):
  *   B ptr=<p>                                             (kernel started; a process that dies names the culprit)
  *   K ptr=<p> file=<f> handler=<h> cases=<n> skipped=<n> nonconst=<n> variants=<fn>:<flag>:<compared>,...
@@ -252,6 +252,7 @@ int kstride(KdCtx *k, int w, int mult) {
 
 /* ------------------------------------------------------------------ running */
 static KdCtx        g_k;
+static uint64_t     g_isa_mask; /* --isa: compare only variants needing this CPU flag */
 static const char  *g_cur_fn = "";
 static volatile int g_asan_reports;
 static int          g_in_kernel;
@@ -400,6 +401,7 @@ static void run_case(KdCtx *k, const KdEntry *e, int icase, uint64_t seed, uint6
         const KdVariant *v = &e->v[vi];
         if ((v->flag & hostflags) != v->flag) continue;
         if (only_variant && strcmp(only_variant, v->name)) continue;
+        if (g_isa_mask && !(v->flag & g_isa_mask)) continue;
         run_handler(k, v, vi, cs);
         int bad = 0;
         if (k->skip || !k->called || k->nbuf != g_ref.nbuf) {
@@ -509,6 +511,10 @@ int main(int argc, char **argv) {
         else if (!strcmp(argv[i], "--list")) list = 1;
         else if (!strcmp(argv[i], "-v")) verbose = 1;
         else if (!strcmp(argv[i], "--after") && i + 1 < argc) after = argv[++i];
+        else if (!strcmp(argv[i], "--isa") && i + 1 < argc) {
+            const char *n = argv[++i];
+            g_isa_mask    = !strcmp(n, "avx512") ? CPU_FLAGS_AVX512F : !strcmp(n, "avx2") ? CPU_FLAGS_AVX2 : 0;
+        }
         else {
             fprintf(stderr, "kdiff: bad argument %s\n", argv[i]);
             return 2;
@@ -562,11 +568,13 @@ int main(int argc, char **argv) {
             if (!strcmp(after, e->ptr)) after = NULL;
             continue;
         }
-        int nv = 0, nrun = 0;
+        int nv = 0, nrun = 0, nisa = 0;
         for (int vi = 1; e->v[vi].name; vi++) {
             nv++;
             if ((e->v[vi].flag & hostflags) == e->v[vi].flag) nrun++;
+            if (e->v[vi].flag & g_isa_mask) nisa++;
         }
+        if (g_isa_mask && !nisa) continue; /* this run only looks at one ISA level */
         const char *reason = NULL;
         if (!e->h) reason = "no-handler";
         else if (!e->sig_ok) reason = "signature";
@@ -587,9 +595,12 @@ int main(int argc, char **argv) {
             for (long i = 0; i < n; i++) run_case(k, e, (int)i, seed, hostflags, only_variant, &st, verbose);
         printf("K ptr=%s file=%s handler=%s cases=%ld skipped=%ld nonconst=%ld variants=", e->ptr, e->file, e->hname, st.cases, st.skipped,
                st.nonconst_cases);
-        for (int vi = 1; e->v[vi].name; vi++)
-            printf("%s%s:%s:%ld:%ld:%ld", vi > 1 ? "," : "", e->v[vi].name, flag_name(e->v[vi].flag), vi < 16 ? st.compared[vi] : 0,
+        for (int vi = 1, first = 1; e->v[vi].name; vi++) {
+            if (g_isa_mask && !(e->v[vi].flag & g_isa_mask)) continue;
+            printf("%s%s:%s:%ld:%ld:%ld", first ? "" : ",", e->v[vi].name, flag_name(e->v[vi].flag), vi < 16 ? st.compared[vi] : 0,
                    vi < 16 ? st.nonconst_cmp[vi] : 0, vi < 16 ? st.bad[vi] : 0);
+            first = 0;
+        }
         printf("\n");
         g_k.e = NULL;
     }
